@@ -174,6 +174,7 @@ namespace plan
     int super = -1;
     std::vector<std::string> rfields; // own real fields
     int ofield_class = -1;            // own object field "g" of that class (or -1)
+    bool ofield_twice = false;        // a second own object field "h" of the same class
     bool is_sv = false;
     std::vector<int> preds; // predicates declared inside (state variables)
   };
@@ -211,7 +212,9 @@ namespace plan
     std::string name;
     int cls = -1; // declared inside class (state variable) or -1 for global
     int kind = 0; // 0 plain, 1 Interval, 2 Impulse (global predicates); class predicates of SVs are Intervals
-    std::vector<std::string> rparams;
+    std::vector<std::string> rparams; // for a sub-predicate: the inherited parameters first, its own from 'own_from' on
+    int super = -1;                   // index of the predicate it extends (global predicates only), or -1
+    size_t own_from = 0;
     std::vector<std::shared_ptr<BodyItem>> body;
   };
   struct Arg
@@ -292,6 +295,8 @@ namespace plan
       all_ofields(classes[c].super, out);
       if (classes[c].ofield_class >= 0)
         out.push_back({"g" + std::to_string(c), classes[c].ofield_class});
+      if (classes[c].ofield_class >= 0 && classes[c].ofield_twice)
+        out.push_back({"h" + std::to_string(c), classes[c].ofield_class});
     }
     // the values an enum variable ranges over: its own and, transitively, those of the enums it includes; ids are global
     std::vector<std::pair<int, std::string>> enum_values(int en) const
@@ -300,6 +305,15 @@ namespace plan
       for (; en >= 0; en = enums[en].includes)
         for (size_t i = 0; i < enums[en].vals.size(); ++i)
           out.push_back({1000 * en + static_cast<int>(i), enums[en].vals[i]});
+      return out;
+    }
+    // the rule of a predicate is the rules of the predicates it extends (outermost first) followed by its own
+    std::vector<std::shared_ptr<BodyItem>> eff_body(const PredD &p) const
+    {
+      std::vector<std::shared_ptr<BodyItem>> out;
+      if (p.super >= 0)
+        out = eff_body(preds[p.super]);
+      out.insert(out.end(), p.body.begin(), p.body.end());
       return out;
     }
     bool enum_related(int e1, int e2) const
